@@ -163,7 +163,7 @@ class delay_with_mapper_sub(delay_with_mapper):
     def start(s, out):
         if not s.started:
             s.started = True
-            out.subscribe_source(0)
+            out.subscribe_source(0, False)
             out.dispose_source(1)
 
     def on_next(s, out, i, x):
